@@ -181,3 +181,37 @@ def reset_caches():
         ci.componentIDs.clear()
     if hasattr(ci, 'attemptedToParseCompIDs'):
         ci.attemptedToParseCompIDs = False
+
+
+def main_inprocess(argv, patches=None):
+    """Calls peltool.main() in this process with sys.argv = argv, module
+    attributes of peltool temporarily replaced by `patches`, std streams
+    captured.  Returns (status, stdout, stderr); SystemExit is mapped like the
+    interpreter does; other exceptions propagate as the repo raised them."""
+    m = mods()
+    peltool = m['peltool']
+    saved = {}
+    old_argv = sys.argv
+    status = 0
+    for k, v in (patches or {}).items():
+        saved[k] = getattr(peltool, k)
+        setattr(peltool, k, v)
+    try:
+        sys.argv = [repoenv.PELTOOL] + list(argv)
+        with captured() as (out, err):
+            try:
+                peltool.main()
+            except SystemExit as e:
+                c = e.code
+                if c is None:
+                    status = 0
+                elif isinstance(c, int):
+                    status = c & 0xFF
+                else:
+                    err.write(str(c) + '\n')
+                    status = 1
+        return status, out.getvalue(), err.getvalue()
+    finally:
+        sys.argv = old_argv
+        for k, v in saved.items():
+            setattr(peltool, k, v)
